@@ -69,7 +69,7 @@ var c10SettleMax = flag.Duration("c10.settlemax", 60*time.Second, "C10 cbgate: r
 
 // CBOp is one operation of a thread's program.
 type CBOp struct {
-	Kind string   `json:"kind"` // add glv getleaf hupd hval query walk walksorted del delcond walkdel
+	Kind string   `json:"kind"` // add glv getleaf hupd hval query walk walksorted del delcond walkdel children isbranch tvalue string
 	Path []string `json:"path,omitempty"`
 	Odd  bool     `json:"odd,omitempty"` // add, hupd: parity of the unique value written (conditional deletes remove even values)
 	// hupd, hval: which retained handle: abs | seen | done | unseen (see the file comment); Idx is taken modulo the number of candidates
@@ -487,6 +487,19 @@ func (r *cbRun) dispatch(t *cbThread) bool {
 		}
 	case "walksorted":
 		o.Kind, o.Sorted = "walk", true
+	case "children", "isbranch", "tvalue", "string":
+		// the accessor dimension (c10_access_test.go): on the root (empty path) or on the node Get(path) returns,
+		// while another thread is parked inside a delete (root write lock held) or a visit (root read lock held,
+		// possibly with a delete queued behind it)
+		o = burstHOp(t.id, BOp{Kind: spec.Kind, Path: spec.Path}, uniq)
+		where := "sub-node"
+		if len(o.Path) == 0 {
+			where = "root"
+		}
+		r.st.label("access:" + spec.Kind + ":" + where)
+		if job.ctx != "" {
+			r.st.label("access:" + spec.Kind + ":" + where + ":started-while-parked-" + job.ctx)
+		}
 	}
 	if parkedVisit != nil && isDelKind(spec.Kind) {
 		// what the clause "a delete is atomic for readers" is about: on a correct tree this
@@ -523,7 +536,7 @@ func (r *cbRun) collect(q cbQuiet) *gateFail {
 			return &gateFail{"panic", "an operation panicked: " + j.panic}
 		}
 		if o.Kind == "getleaf" && j.got != nil {
-			r.handles = append(r.handles, burstHandle{j.got, o.H, o.Path})
+			r.handles = append(r.handles, burstHandle{l: j.got, h: o.H, path: o.Path})
 		}
 		if o.Kind == "add" && o.Err != "" {
 			r.st.label("failed-add")
@@ -617,7 +630,7 @@ func (r *cbRun) body() *gateFail {
 		if in.Handle && o.Err == "" {
 			g := HOp{G: 99, Kind: "getleaf", Path: in.Path, H: 10 + i}
 			if l := perform(r.tr, &g, nil, r.now); l != nil {
-				r.handles = append(r.handles, burstHandle{l, g.H, g.Path})
+				r.handles = append(r.handles, burstHandle{l: l, h: g.H, path: g.Path})
 			}
 			r.hist.Ops = append(r.hist.Ops, g)
 		}
@@ -871,7 +884,8 @@ func genCB(t *rapid.T) *CBScenario {
 		return o
 	}
 	anyOp := func(t *rapid.T, parks bool) CBOp {
-		kind := rapid.SampledFrom([]string{"add", "add", "add", "glv", "getleaf", "handle", "handle", "handle", "query", "walk", "walksorted", "del", "delcond", "walkdel"}).Draw(t, "kind")
+		kind := rapid.SampledFrom([]string{"add", "add", "add", "glv", "getleaf", "handle", "handle", "handle", "query", "walk", "walksorted", "del", "delcond", "walkdel",
+			"children", "children", "isbranch", "tvalue", "string"}).Draw(t, "kind")
 		if kind == "handle" {
 			return handleOp(t)
 		}
@@ -883,6 +897,15 @@ func genCB(t *rapid.T) *CBScenario {
 			o.Park = parks && rapid.Bool().Draw(t, "park")
 		case "glv", "getleaf":
 			o.Path = exact(t)
+		case "children", "isbranch", "tvalue", "string":
+			// the root half of the time, else a node at or above a leaf
+			if rapid.Bool().Draw(t, "onroot") {
+				o.Path = []string{}
+			} else {
+				p := exact(t)
+				o.Path = p[:rapid.IntRange(1, len(p)).Draw(t, "nodedepth")]
+			}
+			return o
 		case "query", "del", "delcond", "walkdel":
 			o.Path = pattern(t)
 		}
